@@ -176,3 +176,25 @@ Lemma stale_read_rejected :
                        {| c_inv := 4; c_ret := 5; c_op := KRead; c_res := true |};
                        {| c_inv := 7; c_ret := 8; c_op := KRead; c_res := true |} ] = false.
 Proof. vm_compute. repeat split. Qed.
+
+(* ---- overlay's writers (D50) ---- *)
+(* when each writer runs its two steps without the other in between, the blob is there exactly if the last writer was an upload *)
+Lemma ov_serial_last : forall ops s o,
+  ov_present (ov_run s (flat_map ov_atomic (ops ++ [o]))) = match o with OvRecv => true | OvRem => false end.
+Proof.
+  intros ops s o. unfold ov_run. rewrite flat_map_app, fold_left_app. cbn [flat_map app].
+  set (s1 := fold_left ov_step (flat_map ov_atomic ops) s). destruct o; cbn; reflexivity.
+Qed.
+
+(* interleaved, an upload that runs between the two steps of a removal is lost: the blob is absent after the removal's first
+   step (a reader sees that), the upload begins and completes, the removal completes, and the blob is absent for good -
+   a history the judge rejects *)
+Lemma ov_interleaved_loses_upload :
+  let s0 := {| ov_up := true; ov_del := false |} in
+  ov_present (ov_run s0 [RemUpper]) = false /\
+  ov_present (ov_run s0 [RemUpper; RecvUpper; RecvClear; RemMark]) = false /\
+  lin_check true [ {| c_inv := 1; c_ret := 6; c_op := KRemove; c_res := true |};
+                   {| c_inv := 2; c_ret := 3; c_op := KRead; c_res := false |};
+                   {| c_inv := 4; c_ret := 5; c_op := KReceive; c_res := true |};
+                   {| c_inv := 7; c_ret := 8; c_op := KRead; c_res := false |} ] = false.
+Proof. vm_compute. repeat split; reflexivity. Qed.
